@@ -20,7 +20,8 @@ RULE = (
     "reaches the EM algorithm, captured from compute_vote_vectors / the optimiser's closure) and ParzenWindowClassifier "
     "(dyadic precomputed kernels, n_neighbors=None), compared with the model; (b) paired real fits (GaussianNB, "
     "LogisticRegression, DecisionTree, SGD, LinearRegression, DecisionTreeRegressor, BayesianRidge, GaussianProcess, PWC, NIC, "
-    "ALR) on a data set and on its variants with unlabeled rows inserted, deleted, permuted and re-weighted. non-trivial = at "
+    "ALR, and SklearnRegressor / SklearnNormalRegressor around estimators that cannot be fitted — fallback path with 0/1/2 labels, "
+    "comparing predict with std / entropy, the distribution's variance, sample_y and _label_mean/_label_std) on a data set and on its variants with unlabeled rows inserted, deleted, permuted and re-weighted. non-trivial = at "
     "least one labeled and one unlabeled row; distinct = distinct (learner, data set, variant) tuples"
 )
 ASSUMPTIONS = [
@@ -253,6 +254,16 @@ def case_spy_reg(ctx, lines, expect, cfg):
         impl = f"{' '.join(map(str, ids_of(rec['X'])))} ; {' '.join(f2bits(v) for v in rec['y'])} ; {ws}"
     expect.append((impl, dict(cfg, what="regfit")))
     n_lab = int(np.sum(~np.isnan(y)))
+    if n_lab < 8:
+        # the wrapper's fallback statistics are functions of the labeled values only
+        lab_vals = y[~np.isnan(y)]
+        lines.append(f"labelstats {n_lab} {' '.join(f2bits(v) for v in lab_vals)}")
+        expect.append((" ".join(f2bits(float(v) + 0.0) for v in (reg._label_mean, reg._label_std)), dict(cfg, what="labelstats")))
+        want_std = 1.0 if n_lab < 2 else float(np.std(lab_vals))
+        want_mean = 0.0 if n_lab == 0 else float(np.mean(lab_vals))
+        if not (np.isclose(reg._label_mean, want_mean, rtol=1e-12, atol=1e-12) and np.isclose(reg._label_std, want_std, rtol=1e-12, atol=1e-12)):
+            viol(ctx, name, "fallback-statistics-depend-on-unlabeled-rows",
+                 f"_label_mean={reg._label_mean}, _label_std={reg._label_std} but the labeled values {lab_vals.tolist()} give {want_mean}, {want_std}", cfg)
     ctx.case(("spy_reg", repr(cfg)), 0 < n_lab < n, sample=dict(kind=name + "+spy", y=y, w=w, recorded=impl))
     ctx.count(f"spy_reg_{name}" + ("_partial" if cfg["partial"] else ""))
     if log:
@@ -477,10 +488,45 @@ def make_learner(name):
     if name == "nic":
         return (lambda classes, missing: NICKernelRegressor(metric="rbf", metric_dict={"gamma": 0.25}, random_state=0)), "reg", \
             lambda m, Xq: list(m.predict(Xq, return_std=True))
+    if name.startswith("fb_"):
+        # fallback paths: the wrapped estimator cannot be fitted (raises, or needs at least `min_n` samples)
+        from sklearn.base import BaseEstimator, RegressorMixin
+        from sklearn.exceptions import NotFittedError
+
+        class Unfittable(RegressorMixin, BaseEstimator):
+            def __init__(self, min_n=10**9):
+                self.min_n = min_n
+
+            def fit(self, X, y, sample_weight=None):
+                if len(y) < self.min_n:
+                    raise ValueError("cannot be fitted on so few samples")
+                self.mean_ = float(np.mean(y))
+                return self
+
+            def predict(self, X, return_std=False):
+                if not hasattr(self, "mean_"):
+                    raise NotFittedError("not fitted")
+                m = np.full(len(X), self.mean_)
+                return (m, np.full(len(X), 0.5)) if return_std else m
+
+            def sample_y(self, X, n_samples=1, random_state=None):
+                if not hasattr(self, "mean_"):
+                    raise NotFittedError("not fitted")
+                return np.full((len(X), n_samples), self.mean_)
+
+        min_n = 2 if name.endswith("min2") else 10**9
+        stats = lambda m: np.array([m._label_mean, m._label_std], dtype=float)
+        if name.startswith("fb_nreg"):
+            return (lambda classes, missing: SklearnNormalRegressor(Unfittable(min_n), random_state=0)), "reg", \
+                lambda m, Xq: list(m.predict(Xq, return_std=True, return_entropy=True)) + [
+                    m.predict_target_distribution(Xq).var(), m.sample_y(Xq, n_samples=3, random_state=1), stats(m)]
+        return (lambda classes, missing: SklearnRegressor(Unfittable(min_n), random_state=0)), "reg", \
+            lambda m, Xq: list(m.predict(Xq, return_std=True)) + [m.sample_y(Xq, n_samples=3, random_state=1), stats(m)]
     raise KeyError(name)
 
 
-LEARNERS = ["gnb", "lr", "tree", "sgd", "sgd_partial", "pwc_table", "pwc_rbf", "alr", "linreg", "treereg", "sgdreg", "bayesridge", "gp", "nic"]
+LEARNERS = ["gnb", "lr", "tree", "sgd", "sgd_partial", "pwc_table", "pwc_rbf", "alr", "linreg", "treereg", "sgdreg", "bayesridge", "gp", "nic",
+            "fb_reg", "fb_reg_min2", "fb_nreg", "fb_nreg_min2"]
 
 
 def build_variant(cfg, variant):
@@ -603,6 +649,11 @@ def gen_paired(rng, learner=None):
         unl = [None, None]
     else:
         y = gen_reg_labels(rng, n)
+        if learner.startswith("fb_"):
+            # 0, 1 or 2 labels among the rows (the boundary cases of the fallback statistics), the rest unlabeled
+            n_lab = rng.choice([0, 1, 1, 1, 2, 2, 3])
+            pos = rng.sample(range(n), min(n_lab, n))
+            y = [(rng.choice([dy(rng, -8, 9, 4), round(rng.uniform(-3, 3), 3)]) if i in pos else None) for i in range(n)]
         unl = None
     declared = True if task != "clf" else (rng.random() < 0.7 or all(v is None for v in y))
     m = rng.randint(1, 3)
@@ -633,7 +684,10 @@ def fixed_cases():
         dict(kind="spy_clf", k=3, label_kind="spread-nan", y_idx=[None, 2, None, 0], classes_order=[0, 1, 2], w=[5.0, 1.0, 7.0, 2.0],
              variant="w", partial=False, feat=[0.0, 1.0, 2.0, 3.0]),
         dict(kind="nic", y=[None, None], w=[1.0, 1.0], nw=False, feat=[0.0, 1.0]),
-    ]
+        dict(kind="spy_reg", y=[None, 2.5, None], w=None, accepts_w=True, normal=True, partial=False, feat=[0.0, 1.0, 2.0]),
+    ] + [dict(kind="paired", learner=ln, k=2, label_kind="int-nan", declared=True, y=[None, 2.5, None], unl_label=None, w=None,
+              feat=[[0.0, 0.0], [1.0, 1.0], [2.0, 1.0]], extra=[dict(f=[1.0, 2.0], w=1.0)], positions=[0], perm=[1, 0, 2, 3],
+              new_w=[1.0], Xq=[[0.0, 0.0], [1.0, 1.0]]) for ln in ("fb_reg", "fb_nreg", "fb_nreg_min2")]
 
 
 def gen_any(rng):
